@@ -209,8 +209,11 @@ Current(env, chunks, i, name) ==
   THEN ~\E j \in 1..(i - 1) : chunks[j].c \in {"C", "S"} /\ HasName(chunks[j].kw, name)
   ELSE ~\E j \in (i + 1)..Len(chunks) : chunks[j].c \in {"C", "S"} /\ HasName(chunks[j].kw, name)
 
-\* Invoke.star(args=None, kwargs=None): None means "not given"
-StarAbsent(x) == x = <<>> \/ (x[1].op = "const" /\ x[1].v = VNone)
+\* Invoke.star(args=None, kwargs=None), Call(func, args=None, kwargs=None): None means "not given"
+IsNoneConst(s) == s.op = "const" /\ s.v = VNone
+StarAbsent(x) == x = <<>> \/ IsNoneConst(x[1])
+CallArgs(s)   == IF IsNoneConst(s.args) THEN [op |-> "tuple", kids |-> <<>>] ELSE s.args
+CallKwargs(s) == IF IsNoneConst(s.kwargs) THEN [op |-> "dict", ordered |-> FALSE, keys |-> <<>>, kids |-> <<>>] ELSE s.kwargs
 
 RECURSIVE Eval(_, _, _, _), AutoMode(_, _, _, _), Literal(_, _, _, _), Glomit(_, _, _, _),
           DictLoop(_, _, _, _, _, _), ListLoop(_, _, _, _, _, _), TupleLoop(_, _, _, _, _),
@@ -354,9 +357,9 @@ EagerRest(st, env, t, s, i) ==
 CallEval(st, env, t, s) ==
   LET f == Eval(st, ArgEnv(env), t, s.func) IN
   IF ~f.ok THEN f ELSE
-  LET a == Eval(f.st, ArgEnv(env), t, s.args) IN
+  LET a == Eval(f.st, ArgEnv(env), t, CallArgs(s)) IN
   IF ~a.ok THEN a ELSE
-  LET k == Eval(a.st, ArgEnv(env), t, s.kwargs) IN
+  LET k == Eval(a.st, ArgEnv(env), t, CallKwargs(s)) IN
   IF ~k.ok THEN k ELSE
   LET ua == Unpack(k.st.heap, a.v)
       uk == KwUnpack(k.st.heap, k.v) IN
@@ -547,7 +550,7 @@ FnLaw(st, t, s, W) ==
 \*      first failure ends the evaluation; then the function is called exactly once with
 \*      those values:  func(*args, **kwargs)
 CallLaw(st, env, t, s, W) ==
-  LET rs == Thread(st, ArgEnv(env), <<t, t, t>>, <<s.func, s.args, s.kwargs>>, "Failed", 1)
+  LET rs == Thread(st, ArgEnv(env), <<t, t, t>>, <<s.func, CallArgs(s), CallKwargs(s)>>, "Failed", 1)
       m  == Len(rs) IN
   IF ~rs[m].ok THEN W = rs[m]                                \* a part failed: nothing after it
   ELSE LET st3 == rs[3].st
@@ -631,7 +634,7 @@ Lawful(st, env, t, s) ==
               /\ LET u == AltUnit(st, genv, t, s, 1) IN Rejected(s, u) => Lawful(u.st, env, t, rest)
        [] s.op = "spec" -> Lawful(st, genv, t, s.kids[1])
        [] s.op = "call" ->
-            LET parts == <<s.func, s.args, s.kwargs>>
+            LET parts == <<s.func, CallArgs(s), CallKwargs(s)>>
                 rs == Thread(st, ArgEnv(genv), <<t, t, t>>, parts, "Failed", 1) IN
             \A i \in 1..Len(rs) : Lawful(IF i = 1 THEN st ELSE rs[i - 1].st, ArgEnv(genv), t, parts[i])
        [] s.op = "invoke" ->
